@@ -63,6 +63,8 @@ def _scale(rng):
 
 def generate(ctx):
     rng = ctx.rng
+    for atoms in ([100010] if ctx.quick() else [99990, 100010, 200010]):
+        yield {"kind": "bignum", "atoms": atoms, "seed": rng.randrange(2 ** 31)}
     n_main = ctx.n(150, 4000)
     for i in range(n_main):
         small = rng.random() < 0.35
@@ -357,8 +359,72 @@ def _read_gro(path):
 
 # ----------------------------------------------------------------------------- evaluation
 
+def _eval_bignum(ctx, case):
+    """An extrapolation whose OUTPUT has more than 100000 atoms (the five-column limit of the .gro number fields).
+    Oracle only (the per-molecule comparison and the byte model are exercised by the ordinary cases): atom count,
+    atom numbers = 1, 2, ... with the writer's modulo-100000 wrap (99999, 0, 1, ...: consecutive, no jump), residue
+    numbers of the input molecules, title and box.  (Seed C05-8: the running counter 'wrapped' as n % 99999 + 1.)"""
+    import random as _random
+    rng = _random.Random(case["seed"])
+    desc = mgrgen.gen_system(rng, nmol_max=4, small=True, force_kinds=["general"])
+    sp = next(i for i, s in enumerate(desc["species"]) if s["kind"] == "general")
+    if desc["species"][sp]["aa"] is None:
+        desc["species"][sp]["aa"] = mgrgen.gen_aa(rng, desc["species"][sp]["cg"])
+    for i, s_ in enumerate(desc["species"]):
+        s_["loaded"] = (i == sp)
+    n_aa = len(desc["species"][sp]["aa"]["xyz"])
+    nmol = case["atoms"] // n_aa + 2
+    tmpl = desc["species"][sp]["cg"]["xyz"]
+    nres = len(desc["species"][sp]["cg"]["residues"])
+    desc["solvent"] = None
+    desc["sysvel"] = False
+    desc["mols"] = [{"sp": sp, "resids": [(1 + m * nres + r) % 100000 for r in range(nres)],
+                     "xyz": [[round(p[0] + 0.001 * (m % 900), 3), round(p[1] + 0.001 * (m // 900), 3), p[2]] for p in tmpl]}
+                    for m in range(nmol)]
+    workdir = os.path.join(ctx.scratch, f"c05-big-{ctx.evaluations}")
+    try:
+        c = {"desc": desc, "mode": "normal", "scale": 0.5, "align": False, "npseed": 1, "ends": [sp]}
+        man, paths, ends, out = _run_manager(ctx, c, workdir)
+        err = None
+        try:
+            man.extrapolate_system(out)
+        except Exception as e:   # noqa: BLE001
+            err = e
+        ctx.case({"bignum": case["atoms"], "seed": case["seed"]}, nontrivial=True,
+                 sample={"kind": "bignum", "molecules": nmol, "atoms_out": nmol * n_aa})
+        ctx.count("bignum:output-atoms>100000")
+        ctx.oracle_ok(3)
+        if err is not None:
+            ctx.oracle_fail(f"extrapolate:raises-{type(err).__name__}:bignum", case, {"error": repr(err)})
+            return
+        nums, resids = [], []
+        with open(out) as f:
+            f.readline()
+            count_line = f.readline()
+            for _ in range(nmol * n_aa):
+                l = f.readline()
+                resids.append(int(l[0:5]))
+                nums.append(int(l[15:20]))
+        if int(count_line) != nmol * n_aa:
+            ctx.oracle_fail("extrapolate:count:bignum", case, {"count": count_line.strip(), "want": nmol * n_aa})
+        want = [(k + 1) % 100000 for k in range(nmol * n_aa)]
+        if nums != want:
+            bad = next(k for k in range(len(want)) if nums[k] != want[k])
+            ctx.oracle_fail("extrapolate:numbering:bignum", case,
+                            {"atom": bad + 1, "written": nums[bad], "want": want[bad], "around": nums[max(0, bad - 2):bad + 3]})
+        rs = [r for m in desc["mols"] for res_i, r in enumerate(m["resids"])
+              for _ in desc["species"][sp]["aa"]["residues"][res_i]["atoms"]]
+        if resids != rs:
+            bad = next(k for k in range(len(rs)) if resids[k] != rs[k])
+            ctx.oracle_fail("extrapolate:resids:bignum", case, {"atom": bad + 1, "written": resids[bad], "want": rs[bad]})
+    finally:
+        shutil.rmtree(workdir, ignore_errors=True)
+
+
 def evaluate(ctx, case):
     warnings.simplefilter("ignore")
+    if case["kind"] == "bignum":
+        return _eval_bignum(ctx, case)
     if case["kind"] == "title":
         return _eval_title(ctx, case)
     if case["kind"] == "shipped":
